@@ -110,10 +110,12 @@ KeyCase(k, wrap, dup) == [kind |-> "key", k |-> k, wrap |-> wrap, dup |-> dup]
 SvcCase(s, wrap, dup) == [kind |-> "svc", s |-> s, wrap |-> wrap, dup |-> dup]
 
 \* list-valued patches: remove-public-keys / remove-services ids, also-known-as uris, json patches
-ListVals == {"ok_one", "ok_two", "empty", "not_array", "missing_value", "bad_entry_first", "bad_entry_last", "dup"}
+\* dup_respelled: two entries that differ as strings only - for URIs the same URI once parsed (scheme in another
+\* letter case), for ids two different ids
+ListVals == {"ok_one", "ok_two", "empty", "not_array", "missing_value", "bad_entry_first", "bad_entry_last", "dup", "dup_respelled"}
 ListOk(action, v) ==
     CASE v \in {"ok_one", "ok_two"} -> TRUE
-      [] v = "dup" -> action \in {"remove-public-keys", "remove-services"}  \* only also-known-as URIs must be unique
+      [] v \in {"dup", "dup_respelled"} -> action \in {"remove-public-keys", "remove-services"}  \* only also-known-as URIs must be unique
       [] OTHER -> FALSE
 ListActions == {"remove-public-keys", "remove-services", "add-also-known-as", "remove-also-known-as"}
 ListCase(a, v) == [kind |-> "list", action |-> a, v |-> v]
